@@ -331,6 +331,50 @@ def translate_deadline(repo, cls, rel, call):
     return text, sym.lets, sym.env["ts.tv_sec"], sym.env["ts.tv_nsec"]
 
 
+GEN_ORDER = C.LEAN / "Nstd" / "Generated" / "SyncMonitorOrder.lean"
+
+
+def translate_monitor_order(repo):
+    """Monitor::set() (POSIX branch): lock; signaled = true; then {pthread_cond_signal, pthread_mutex_unlock} in either order.
+    Returns True when the signal is issued BEFORE the unlock (while the mutex is held).  The contract does not fix the
+    order; the Lean system is parametric in it and the driver follows the one the current source has."""
+    src = _strip_comments((Path(repo) / "src/Monitor.cpp").read_text())
+    m = re.search(r"\bvoid\s+Monitor\s*::\s*set\s*\(\s*\)\s*\{", src)
+    if not m:
+        raise TransErr("Monitor::set() not found")
+    depth, i = 1, m.end()
+    while i < len(src) and depth:
+        depth += {"{": 1, "}": -1}.get(src[i], 0)
+        i += 1
+    body = _posix_branch(src[m.end():i - 1])
+    pos = {}
+    for key, rx in (("lock", r"pthread_mutex_lock\s*\("), ("store", r"\bsignaled\s*=\s*true\s*;"),
+                    ("unlock", r"pthread_mutex_unlock\s*\("), ("signal", r"pthread_cond_signal\s*\(")):
+        hits = [x.start() for x in re.finditer(rx, body)]
+        if len(hits) != 1:
+            raise TransErr(f"Monitor::set(): expected exactly one {key}, found {len(hits)}")
+        pos[key] = hits[0]
+    if not (pos["lock"] < pos["store"] < min(pos["unlock"], pos["signal"])):
+        raise TransErr("Monitor::set(): not of the form lock; signaled = true; {unlock, signal}")
+    return pos["signal"] < pos["unlock"]
+
+
+def translate_order(repo=None):
+    try:
+        first = translate_monitor_order(repo or C.REPO)
+    except (OSError, TransErr) as e:
+        return False, str(e)
+    text = ("/- generated by tools/areas/sync.py (translate_order) from src/Monitor.cpp - do not edit -/\n"
+            "namespace Nstd.Generated.SyncMonitorOrder\n\n"
+            "/-- `Monitor::set()`: is `pthread_cond_signal` issued before `pthread_mutex_unlock` (while the mutex is held)? -/\n"
+            f"def setSignalsFirst : Bool := {'true' if first else 'false'}\n\n"
+            "end Nstd.Generated.SyncMonitorOrder\n")
+    GEN_ORDER.parent.mkdir(parents=True, exist_ok=True)
+    if not GEN_ORDER.exists() or GEN_ORDER.read_text() != text:
+        GEN_ORDER.write_text(text)
+    return True, "Monitor::set " + ("signals, then unlocks" if first else "unlocks, then signals")
+
+
 def translate(repo=None):
     repo = repo or C.REPO
     out = ["/- generated by tools/areas/sync.py (translate) from src/{Signal,Monitor,Semaphore}.cpp - do not edit -/",
@@ -358,15 +402,17 @@ def translate(repo=None):
 
 def gen(ctx):
     ok, msg = translate()
+    ok2, msg2 = translate_order()
     if ctx is not None:
-        ctx.cov["translated"] = "deadline arithmetic of the timed waits -> Nstd/Generated/SyncDeadline.lean: " + msg
-    return ok, msg
+        ctx.cov["translated"] = ("deadline arithmetic of the timed waits -> Nstd/Generated/SyncDeadline.lean: " + msg +
+                                 "; order of Monitor::set -> Nstd/Generated/SyncMonitorOrder.lean: " + msg2)
+    return ok and ok2, "; ".join(m for o, m in ((ok, msg), (ok2, msg2)) if not o)
 
 
 def setup():
-    ok, msg = translate()
-    if not ok:
-        print("sync translate:", msg)
+    for ok, msg in (translate(), translate_order()):
+        if not ok:
+            print("sync translate:", msg)
 
 
 # ---- scenarios -----------------------------------------------------------------------------------
